@@ -126,3 +126,326 @@ def inline(db, module, expr, cls_scope=None, depth=6):
 
 def dump(expr):
     return ast.unparse(expr)
+
+
+# ---------------------------------------------------------------------------
+# symbolic value extraction (E8 proper): one term over parameters and
+# library primitives, in-repo callees inlined, effects on local objects kept
+# in order.
+class Sym(object):
+    def __init__(self, name):
+        self.name = name
+
+    def key(self):
+        return ('sym', self.name)
+
+    def __repr__(self):
+        return self.name
+
+
+class Const(object):
+    def __init__(self, v):
+        self.v = v
+
+    def key(self):
+        return ('const', repr(self.v))
+
+    def __repr__(self):
+        return repr(self.v)
+
+
+class CallT(object):
+    """call of something outside the repository (dotted name resolved
+    through the module's imports)"""
+    def __init__(self, func, args, kwargs):
+        self.func = func
+        self.args = tuple(args)
+        self.kwargs = tuple(sorted(kwargs.items()))
+
+    def kw(self, name, default=None):
+        for k, v in self.kwargs:
+            if k == name:
+                return v
+        return default
+
+    def key(self):
+        return ('call', self.func, tuple(a.key() for a in self.args),
+                tuple((k, v.key()) for k, v in self.kwargs))
+
+    def __repr__(self):
+        parts = [repr(a) for a in self.args] + ['%s=%r' % kv
+                                                for kv in self.kwargs]
+        return '%s(%s)' % (self.func, ', '.join(parts))
+
+
+class MethT(object):
+    def __init__(self, recv, name, args, kwargs):
+        self.recv = recv
+        self.name = name
+        self.args = tuple(args)
+        self.kwargs = tuple(sorted(kwargs.items()))
+
+    def kw(self, name, default=None):
+        for k, v in self.kwargs:
+            if k == name:
+                return v
+        return default
+
+    def key(self):
+        return ('meth', self.recv.key(), self.name,
+                tuple(a.key() for a in self.args),
+                tuple((k, v.key()) for k, v in self.kwargs))
+
+    def __repr__(self):
+        parts = [repr(a) for a in self.args] + ['%s=%r' % kv
+                                                for kv in self.kwargs]
+        return '%r.%s(%s)' % (self.recv, self.name, ', '.join(parts))
+
+
+class ObjT(object):
+    """a local object created by an external constructor; `effects` are the
+    mutating method calls applied to it so far, in order"""
+    def __init__(self, ctor, effects=()):
+        self.ctor = ctor
+        self.effects = tuple(effects)
+
+    def key(self):
+        return ('obj', self.ctor.key(),
+                tuple((m, tuple(a.key() for a in args))
+                      for m, args in self.effects))
+
+    def __repr__(self):
+        return '%r%s' % (self.ctor, ''.join(
+            '.%s(%s)' % (m, ', '.join(map(repr, a)))
+            for m, a in self.effects))
+
+
+class TupleT(object):
+    def __init__(self, items):
+        self.items = tuple(items)
+
+    def key(self):
+        return ('tuple', tuple(i.key() for i in self.items))
+
+    def __repr__(self):
+        return '(%s)' % ', '.join(map(repr, self.items))
+
+
+class OpT(object):
+    def __init__(self, op, args):
+        self.op = op
+        self.args = tuple(args)
+
+    def key(self):
+        return ('op', self.op, tuple(a.key() for a in self.args))
+
+    def __repr__(self):
+        return '%s(%s)' % (self.op, ', '.join(map(repr, self.args)))
+
+
+class AttrT(object):
+    def __init__(self, base, attr):
+        self.base = base
+        self.attr = attr
+
+    def key(self):
+        return ('attr', self.base.key(), self.attr)
+
+    def __repr__(self):
+        return '%r.%s' % (self.base, self.attr)
+
+
+MUTATORS = ('update', 'append', 'extend', 'write')
+
+
+class SymEval(object):
+    def __init__(self, db):
+        self.db = db
+
+    def run(self, fi, args=None, depth=0):
+        """Term returned by fi when called with symbolic arguments (default:
+        one Sym per parameter)."""
+        params = fi.params
+        env = {}
+        args = list(args) if args is not None else [Sym(p) for p in params]
+        a = fi.node.args
+        defaults = a.defaults
+        first_default = len(params) - len(defaults)
+        for i, p in enumerate(params):
+            if i < len(args):
+                env[p] = args[i]
+            elif i >= first_default:
+                env[p] = self.ev(defaults[i - first_default], {}, fi, depth)
+            else:
+                env[p] = Sym(p)
+        if isinstance(args, dict):
+            pass
+        self.objs = getattr(self, 'objs', {})
+        return self.block(fi.body, env, fi, depth)
+
+    def run_kw(self, fi, pos, kw, depth):
+        params = fi.params
+        vals = list(pos)
+        a = fi.node.args
+        defaults = a.defaults
+        first_default = len(params) - len(defaults)
+        for i in range(len(vals), len(params)):
+            p = params[i]
+            if p in kw:
+                vals.append(kw[p])
+            elif i >= first_default:
+                vals.append(self.ev(defaults[i - first_default], {}, fi,
+                                    depth))
+            else:
+                vals.append(Sym(p))
+        return self.run(fi, vals, depth)
+
+    def block(self, stmts, env, fi, depth):
+        for st in stmts:
+            if isinstance(st, ast.Expr):
+                if isinstance(st.value, ast.Constant):
+                    continue
+                self.ev(st.value, env, fi, depth)
+            elif isinstance(st, ast.Assign):
+                v = self.ev(st.value, env, fi, depth)
+                for t in st.targets:
+                    if isinstance(t, ast.Name):
+                        env[t.id] = v
+                    elif isinstance(t, ast.Tuple) and isinstance(v, TupleT) \
+                            and len(t.elts) == len(v.items):
+                        for e, x in zip(t.elts, v.items):
+                            if isinstance(e, ast.Name):
+                                env[e.id] = x
+                    else:
+                        raise AnalysisError('symeval: unsupported target',
+                                            st, rel(fi.path))
+            elif isinstance(st, ast.Return):
+                return self.ev(st.value, env, fi, depth) if st.value \
+                    else Const(None)
+            elif isinstance(st, ast.Try):
+                # `except AttributeError` around int.from_bytes is the
+                # unreachable py2 fallback: the try body decides
+                hs = [ast.unparse(h.type) if h.type is not None else ''
+                      for h in st.handlers]
+                if hs == ['AttributeError'] and not st.finalbody:
+                    r = self.block(st.body, env, fi, depth)
+                    if r is not None:
+                        return r
+                    continue
+                raise AnalysisError('symeval: unsupported try', st,
+                                    rel(fi.path))
+            elif isinstance(st, ast.If) and not st.orelse and st.body and \
+                    isinstance(st.body[-1], ast.Raise):
+                continue
+            elif isinstance(st, ast.Pass):
+                continue
+            else:
+                raise AnalysisError('symeval: unsupported statement %s'
+                                    % type(st).__name__, st, rel(fi.path))
+        return None
+
+    def dotted(self, fi, e):
+        ent = self.db.resolve_dotted(fi.module, e)
+        if isinstance(ent, tuple):
+            ent = self.db.deref(ent)
+        return ent
+
+    def ev(self, e, env, fi, depth):
+        if isinstance(e, ast.Constant):
+            return Const(e.value)
+        if isinstance(e, ast.Name):
+            if e.id in env:
+                v = env[e.id]
+                if isinstance(v, ObjT) and id(v) in self.objs:
+                    return v
+                return v
+            ent = self.dotted(fi, e)
+            if isinstance(ent, External):
+                return Sym(ent.dotted)
+            if isinstance(ent, (FuncInfo, ClassInfo)):
+                return Sym(getattr(ent, 'qualname', str(ent)))
+            if e.id in ('int', 'format', 'bytes', 'str', 'len', 'hex',
+                        'bytearray'):
+                return Sym('builtins.' + e.id)
+            return Sym(e.id)
+        if isinstance(e, ast.Tuple):
+            return TupleT([self.ev(x, env, fi, depth) for x in e.elts])
+        if isinstance(e, ast.BinOp):
+            return OpT(type(e.op).__name__, [self.ev(e.left, env, fi, depth),
+                                             self.ev(e.right, env, fi,
+                                                     depth)])
+        if isinstance(e, ast.Attribute):
+            # dotted external name?
+            ent = None
+            try:
+                ent = self.dotted(fi, e)
+            except Exception:
+                ent = None
+            base_is_local = isinstance(e.value, ast.Name) and \
+                e.value.id in env
+            if isinstance(ent, External) and not base_is_local:
+                return Sym(ent.dotted)
+            return AttrT(self.ev(e.value, env, fi, depth), e.attr)
+        if isinstance(e, ast.Call):
+            return self.call(e, env, fi, depth)
+        if isinstance(e, ast.Subscript):
+            return OpT('index', [self.ev(e.value, env, fi, depth),
+                                 self.ev(e.slice, env, fi, depth)])
+        if isinstance(e, ast.JoinedStr):
+            return Sym('<fstring>')
+        if isinstance(e, ast.Slice):
+            return OpT('slice', [self.ev(x, env, fi, depth) if x is not None
+                                 else Const(None)
+                                 for x in (e.lower, e.upper, e.step)])
+        if isinstance(e, ast.UnaryOp):
+            return OpT(type(e.op).__name__, [self.ev(e.operand, env, fi,
+                                                     depth)])
+        raise AnalysisError('symeval: unsupported expression %s'
+                            % type(e).__name__, e, rel(fi.path))
+
+    def call(self, e, env, fi, depth):
+        args = [self.ev(a, env, fi, depth) for a in e.args]
+        kwargs = {k.arg: self.ev(k.value, env, fi, depth)
+                  for k in e.keywords if k.arg}
+        f = e.func
+        # method call on a local value
+        if isinstance(f, ast.Attribute):
+            base_local = isinstance(f.value, ast.Name) and f.value.id in env
+            ent = None
+            if not base_local:
+                ent = self.dotted(fi, f)
+            if isinstance(ent, FuncInfo) and depth < 6 and \
+                    ent.kind in ('function', 'static'):
+                return self.run_kw(ent, args, kwargs, depth + 1)
+            if isinstance(ent, External):
+                return self.ext_call(ent.dotted, args, kwargs)
+            recv = self.ev(f.value, env, fi, depth)
+            if isinstance(recv, Sym) and recv.name in (
+                    'builtins.int',) and f.attr == 'from_bytes':
+                return CallT('int.from_bytes', args, kwargs)
+            if isinstance(recv, ObjT) and f.attr in MUTATORS and \
+                    isinstance(f.value, ast.Name):
+                new = ObjT(recv.ctor, recv.effects + ((f.attr,
+                                                       tuple(args)),))
+                env[f.value.id] = new
+                return Const(None)
+            return MethT(recv, f.attr, args, kwargs)
+        if isinstance(f, ast.Name):
+            if f.id in env:
+                return MethT(env[f.id], '__call__', args, kwargs)
+            ent = self.dotted(fi, f)
+            if isinstance(ent, FuncInfo) and depth < 6:
+                return self.run_kw(ent, args, kwargs, depth + 1)
+            if isinstance(ent, External):
+                return self.ext_call(ent.dotted, args, kwargs)
+            if isinstance(ent, ClassInfo):
+                return CallT(ent.qualname, args, kwargs)
+            return CallT('builtins.' + f.id, args, kwargs)
+        raise AnalysisError('symeval: unsupported call', e, rel(fi.path))
+
+    def ext_call(self, dotted, args, kwargs):
+        c = CallT(dotted, args, kwargs)
+        if dotted.split('.')[-1] in ('sha1', 'sha256', 'md5', 'new',
+                                     'BytesIO'):
+            return ObjT(c)
+        return c
